@@ -32,7 +32,7 @@ ASSUMPTIONS = [
     "NoOp store excluded (documented: load does not work with it)",
 ]
 
-PLACEMENTS = ["root", "helper", "helper2", "kept", "kept_helper"]
+PLACEMENTS = ["root", "helper", "helper2", "kept", "kept_helper", "inline_arg", "kept_inline_arg"]
 ORDERS = ["earlier_eval", "same_before", "same_before", "same_after", "same_after_populated", "never"]
 STORES = [("memory", None), ("local", None), ("local-lru", 2)]
 
@@ -69,6 +69,15 @@ def build(placement, order, producer, noise, multi):
         h2 = add("h2", [["call", h, "bare", []], ["ext", 2]])
         read_stmt = ["call", h2, "bare", []]
         reader_kept = None
+    elif placement == "inline_arg":
+        fmt = add("fmt", [["ext", 1]], params=[["x", M.NO]])
+        read_stmt = ["call", fmt, "bare", [["iload", "/src/v"]]]
+        reader_kept = None
+    elif placement == "kept_inline_arg":
+        fmt = add("fmt", [["ext", 1]], params=[["x", M.NO]])
+        r = add("rd", [["var", 1], ["call", fmt, "bare", [["iload", "/src/v"]]]], data="/rd")
+        read_stmt = ["call", r, "bare", []]
+        reader_kept = "rd"
     elif placement == "kept":
         r = add("rd", [["var", 1], ld], data="/rd")
         read_stmt = ["call", r, "bare", []]
